@@ -29,8 +29,8 @@ FFI_OUTPUT_SIZE = 1200          # FFI_COMPLEXITY_OUTPUT, ffi_obj.c:26
 def generate(ctx):
     rng = ctx.rng
     cases = []
-    nctx = ctx.n(8, 120)
-    per = ctx.n(250, 1500)
+    nctx = ctx.n(8, 30)
+    per = ctx.n(250, 750)
     for ci in range(nctx):
         dctx = G.gen_ctx(rng)
         osz = FFI_OUTPUT_SIZE if ci % 5 else rng.choice([0, 1, 2, 3, 5, 8, 13, 30])
@@ -61,7 +61,10 @@ def build_harness(ctx):
     exe = os.path.join(s.dir, "c07_harness")
     if not os.path.exists(exe):
         src = os.path.join(vlib.ROOT, "tools", "props", "c", "c07_harness.c")
-        p = subprocess.run(["gcc", "-w", "-O1", "-o", exe,
+        # AddressSanitizer/UBSan: the harness gives parse_c_type() exact-size heap buffers, so any access outside
+        # the output buffer or past the string's terminator aborts the harness (reported as a violation)
+        p = subprocess.run(["gcc", "-w", "-O1", "-g", "-fsanitize=address,undefined", "-fno-sanitize-recover=undefined",
+                            "-fno-omit-frame-pointer", "-o", exe,
                             '-DPARSE_C_TYPE_C="%s"' % os.path.join(vlib.REPO, "src/c/parse_c_type.c"),
                             '-DCOMMONTYPES_C="%s"' % os.path.join(vlib.REPO, "src/c/commontypes.c"),
                             "-I" + os.path.join(vlib.REPO, "src/c"), "-I" + s.pyinc, src],
@@ -90,9 +93,10 @@ def run_harness(ctx, groups, cases):
         for i in g["idx"]:
             inp.append("S " + cases[i]["item"]["s"].encode("utf-8").hex())
             owner.append(i)
-    p = subprocess.run([exe], input="\n".join(inp) + "\n", capture_output=True, text=True, timeout=600)
+    env = dict(os.environ, ASAN_OPTIONS="detect_leaks=0:abort_on_error=0:exitcode=77", UBSAN_OPTIONS="print_stacktrace=1")
+    p = subprocess.run([exe], input="\n".join(inp) + "\n", capture_output=True, text=True, timeout=600, env=env)
     if p.returncode:
-        return None, "harness exit status %d: %s" % (p.returncode, p.stderr[-500:])
+        return None, "harness exit status %d (77 = AddressSanitizer): %s" % (p.returncode, p.stderr[-1800:])
     lines = p.stdout.splitlines()
     if len(lines) != len(owner):
         return None, "harness printed %d lines for %d strings" % (len(lines), len(owner))
@@ -517,12 +521,22 @@ def rep_array_of_function(toks, dctx):
     return out
 
 
-def rep_qual_after_ellipsis(toks, dctx):
-    out = []
-    for i, t in enumerate(toks):
-        if t in G.QUALS and out and out[-1] == "...":
-            continue
-        out.append(t)
+def rep_after_ellipsis(toks, dctx):
+    """qualifiers and a declarator name between '...' and the closing parenthesis"""
+    out, i = [], 0
+    while i < len(toks):
+        out.append(toks[i])
+        if toks[i] == "...":
+            j = i + 1
+            while j < len(toks) and (toks[j] in G.QUALS or (G.wordy(toks[j]) and not toks[j][0].isdigit()
+                                                           and toks[j] not in SPEC_KW and toks[j] not in ABI
+                                                           and toks[j] not in type_names(dctx)
+                                                           and toks[j] not in ("struct", "union", "enum"))):
+                j += 1
+            if j < len(toks) and toks[j] == ")":
+                i = j
+                continue
+        i += 1
     return out
 
 
@@ -543,7 +557,7 @@ REPAIRS = [
     ("qualifier_first_param_as_grouping", rep_qual_first_param),
     ("parenthesised_name", rep_paren_name),
     ("array_of_function_typedef_param", rep_array_of_function),
-    ("qualifier_after_ellipsis", rep_qual_after_ellipsis),
+    ("tokens_after_ellipsis", rep_after_ellipsis),
 ]
 EXOTIC_WS = "\r\f\v"
 
@@ -734,6 +748,42 @@ def classify(ctx, cases, groups, real, disagree):
         ctx.violation(cases[i], "typeof(%r): in-line FFI %r, out-of-line FFI %r" % (it["s"], rr["py"], rr["c"]), key)
 
 
+def replay_witnesses(ctx):
+    """every witness of findings/C07.json is re-run on the implementation: an open finding must still show the
+    recorded disagreement, a fixed one must agree"""
+    wit = [k for k in ctx.known if isinstance(k.get("witness"), dict) and "s" in k["witness"]]
+    if not wit:
+        return
+    payload = dict(groups=[dict(cdef=k["witness"].get("cdef", ""), strings=[k["witness"]["s"]]) for k in wit])
+    out, p = ctx.scratch().run_worker("c07_worker.py", payload, timeout=600)
+    status = {}
+    if out is None:
+        ctx.extra["witness_replay"] = "worker failed"
+        return
+    for k, r in zip(wit, out["groups"]):
+        if "cdef_error" in r:
+            status[k["key"]] = "context refused: " + r["cdef_error"][:80]
+            continue
+        rr = r["results"][0]
+        same = agree(rr["py"], rr["c"])
+        case = dict(ctx=dict(structs=[], enums=[], consts=[], typedefs=[]), osz=FFI_OUTPUT_SIZE,
+                    item=dict(kind="mut", toks=None, s=k["witness"]["s"]), witness_of=k["key"],
+                    cdef=k["witness"].get("cdef", ""))
+        if k.get("status") == "open":
+            status[k["key"]] = "still diverges" if not same else "NO LONGER DIVERGES (stale finding?)"
+            if not same:
+                ctx.violation(case, "witness of %s: typeof(%r): in-line %r, out-of-line %r" % (
+                    k["key"], k["witness"]["s"], rr["py"], rr["c"]), k["key"])
+            else:
+                print("NOTE property=C07 the witness of known finding %r no longer diverges" % k["key"])
+        else:
+            status[k["key"]] = "fixed, agrees" if same else "fixed finding diverges again"
+            if not same:
+                ctx.violation(case, "witness of fixed finding %s diverges again: typeof(%r): in-line %r, out-of-line %r"
+                              % (k["key"], k["witness"]["s"], rr["py"], rr["c"]))
+    ctx.extra["witness_replay"] = status
+
+
 def run(ctx):
     ctx.cov["rule"] = ("strings: 62% renderings of random concrete syntax trees of the declarator grammar (specifier "
                        "orders, qualifiers, pointers, arrays with dec/oct/hex/named lengths, function suffixes with "
@@ -749,16 +799,24 @@ def run(ctx):
         "correspondence (ii) samples",
         "x86-64 Linux: primitive sizes, non-Windows commontypes.c table, __stdcall ignored by the backend",
         "glibc strtoull (base 0, no 0b prefix)"]
+    replay_witnesses(ctx)
     evaluate(ctx, generate(ctx))
 
 
 MANIFEST = dict(
-    technique="Coq proof over token-level models of both parsers + three-way differential correspondence "
-              "(C harness on the unmodified parse_c_type.c, out-of-line module, in-line FFI)",
+    technique="Coq proofs over token-level models of both parsers + three-way differential correspondence "
+              "(sanitizer-instrumented C harness on the unmodified parse_c_type.c, out-of-line module, in-line FFI)",
     text="Models: parse_c_type.c at character/token level with the opcode buffer explicit (C07/Model.v), opcode "
          "realisation and the backend's type constructors (C07/Realize.v), cparser's post-processing of the declarator "
-         "tree with the concrete spellings of the grammar (C07/PyModel.v). Theorems (C07/Props.v): see the file; the "
-         "agreement theorem is proved for a sub-grammar (_partial) and the full statement is kept visible.",
-    note="Trusted: Coq kernel; the three hand models (tied by differential testing on every run); pycparser; gcc; "
-         "glibc strtoull. Label: partial.",
+         "tree with the concrete spellings of the grammar (C07/PyModel.v). Proved (C07/Props.v): both parsers agree on "
+         "every list of primitive specifier keywords (C07_specifier_orderings); the lexer reads back any spelled token "
+         "list (C07_lexer); C and Python read integer literals alike; parse_sequel's opcodes decode to the declarator "
+         "(C07_declarator_opcodes); C07_agree_partial: c_typeof (spell t) = denote t for qualifiers + specifier keywords "
+         "+ pointers/qualifiers/nested grouping parentheses/arrays with dec/oct/hex lengths, any white space, any "
+         "context; for ALL strings: no access to the output buffer outside its written part (C07_no_fault) and the "
+         "scanning primitives stop at the terminator. The full statement is kept visible and refuted by eight "
+         "_refuted witnesses (known findings). The hand models are tied to the code on every run.",
+    note="Trusted: Coq kernel; the three hand models (tied by differential testing on every run); pycparser; gcc + "
+         "AddressSanitizer; glibc strtoull. Label: partial (function suffixes, names from the context and the Python "
+         "front end are covered by correspondence only).",
     design_ref="DESIGN.md §4 C07")
